@@ -8,7 +8,11 @@ SetOfPairs(s) == {<<s[i][1], s[i][2]>> : i \in 1..Len(s)}
 TasksOf(ev) == [i \in 1..Len(ev.tasks) |-> [touched |-> SetOfPairs(ev.tasks[i].touched), written |-> SetOfPairs(ev.tasks[i].written)]]
 Report(v) == IF v = {} THEN TRUE ELSE PrintT(<<"REJECT", l, l, v>>)
 TInit == l = 1 /\ k = 0 /\ cuts = {} /\ odd = {}
-TNext == l <= Len(Tr) /\ l' = l + 1 /\ Report(RegionViol(TasksOf(Tr[l]))) /\ UNCHANGED fvars
+\* a pair of accesses to one memory location by two threads of a region that no synchronisation orders (reported by
+\* ThreadSanitizer on the threaded shim): a conflict iff the threads differ and at least one access is a write
+RaceViol(ev) == IF ev.a.thread # ev.b.thread /\ (ev.a.kind = "write" \/ ev.b.kind = "write") THEN {"conflicting-access-between-tasks"} ELSE {}
+TNext == l <= Len(Tr) /\ l' = l + 1 /\ UNCHANGED fvars
+         /\ Report(IF Tr[l].e = "Race" THEN RaceViol(Tr[l]) ELSE RegionViol(TasksOf(Tr[l])))
 TSpec == TInit /\ [][TNext]_<<l, k, cuts, odd>>
 Accepted == TLCGet("stats").diameter - 1 = Len(Tr)
 =============================================================================
